@@ -303,6 +303,18 @@ namespace fastscapelib
             m_neighbors_distances[edge_points.first].push_back(distance);
             m_neighbors_distances[edge_points.second].push_back(distance);
         }
+
+        // the fixed-width neighbor, receiver and donor tables built on top of the mesh
+        // have room for at most n_neighbors_max neighbors per node
+        for (const auto& node_neighbors : m_neighbors_indices)
+        {
+            if (node_neighbors.size() > static_cast<size_type>(N))
+            {
+                throw std::invalid_argument(
+                    "a mesh node has more neighbors than the maximum number of node neighbors "
+                    "of this trimesh type (template parameter N)");
+            }
+        }
     }
 
     template <class S, unsigned int N>
